@@ -26,6 +26,7 @@ def absStep (n : Nat) (A : Abs) : Act → Option Abs
   | .move d t => if A.ph = .idle ∧ d < n ∧ t < n ∧ d ≠ t ∧ d ∈ A.empty then some { A with empty := t :: A.drop d } else none
   | .swap a b => if A.ph = .idle ∧ a < n ∧ b < n then some { A with empty := (A.drop a).filter (fun x => x != b) } else none
   | .setInl d _ _ => if A.ph = .idle ∧ d < n ∧ d ∈ A.empty then some A else none
+  | .clr t => if A.ph = .idle ∧ t < n ∧ t ∈ A.empty then some A else none
   | _ => none
 
 def absRun (n : Nat) (A : Abs) : List Act → Option Abs
@@ -279,6 +280,17 @@ theorem absStep_sound {s : St} {tid : Nat} {A A' : Abs} {a : Act} (hc : Conc s t
       · subst e; simp [Handle.isBlk]
       · rw [upd_other _ _ _ _ e]; exact hc.emp x hx
   | give v t' => simp [absStep] at ha
+  | clr t =>
+    simp only [absStep] at ha
+    split at ha
+    case isFalse => cases ha
+    case isTrue h =>
+      obtain ⟨hph, ht, hte⟩ := h
+      cases ha
+      have hp : s.pc tid = .idle := by have := hc.ph; rw [hph] at this; exact this
+      have hs : astep s tid (.clr t) = some s := by
+        simp only [astep, ht, hc.own, hp, hc.emp t hte, and_self, if_true]
+      exact ⟨s, hs, hc, rfl⟩
   | incE t c v => simp [absStep] at ha
   | takeE t c v => simp [absStep] at ha
   | putE c t v => simp [absStep] at ha
